@@ -22,7 +22,7 @@ a = ap.parse_args()
 root = tempfile.mkdtemp(prefix="vfmut_")
 out = tempfile.mkdtemp(prefix="vfmutout_")
 try:
-    subprocess.check_call(["rsync", "-a", "--exclude", ".git", "--exclude", "tests/resources", "--exclude", "__pycache__", "/repo/", root + "/"])
+    subprocess.check_call(["rsync", "-a", "--exclude", ".git", "--exclude", "tests/resources/1.200806927", "--exclude", "tests/resources/SELF-1.181223995", "--exclude", "tests/resources/BASIC-*", "--exclude", "__pycache__", "/repo/", root + "/"])
     if a.patch:
         subprocess.check_call(["patch", "-p1", "-s", "-d", root, "-i", os.path.abspath(a.patch)])
     else:
